@@ -630,6 +630,22 @@ pub struct Gen<'a, 'b> {
     pub alias_no: usize,
 }
 
+/// Drop the conjuncts / disjuncts of a condition that reference no column (`true` if none is left).
+pub fn strip_const_conjuncts(e: E) -> E {
+    fn strip(e: E) -> Option<E> {
+        match e {
+            E::Bin(op, a, b) if op == "and" || op == "or" => match (strip(*a), strip(*b)) {
+                (Some(a), Some(b)) => Some(E::Bin(op, Box::new(a), Box::new(b))),
+                (Some(x), None) | (None, Some(x)) => Some(x),
+                (None, None) => None,
+            },
+            e if e.has_col() => Some(e),
+            _ => None,
+        }
+    }
+    strip(e).unwrap_or(E::Lit(Val::Bool(true), Ty::Bool))
+}
+
 impl<'a, 'b> Gen<'a, 'b> {
     fn fresh_alias(&mut self, p: &str) -> String {
         self.alias_no += 1;
@@ -987,19 +1003,7 @@ impl<'a, 'b> Gen<'a, 'b> {
         if self.cfg.const_join_cond {
             return e;
         }
-        // drop conjuncts / disjuncts that reference no column
-        fn strip(e: E) -> Option<E> {
-            match e {
-                E::Bin(op, a, b) if op == "and" || op == "or" => match (strip(*a), strip(*b)) {
-                    (Some(a), Some(b)) => Some(E::Bin(op, Box::new(a), Box::new(b))),
-                    (Some(x), None) | (None, Some(x)) => Some(x),
-                    (None, None) => None,
-                },
-                e if e.has_col() => Some(e),
-                _ => None,
-            }
-        }
-        strip(e).unwrap_or(E::Lit(Val::Bool(true), Ty::Bool))
+        strip_const_conjuncts(e)
     }
 
     fn join_on_inner(&mut self, left: &[ScopeCol], right: &[ScopeCol], kind: JoinKind, depth: usize) -> E {
@@ -1091,6 +1095,19 @@ impl<'a, 'b> Gen<'a, 'b> {
                 from.push(FromItem { source, alias, join: Some((kind, on)) });
                 if !matches!(kind, JoinKind::Semi | JoinKind::Anti) {
                     scope.extend(cols);
+                }
+            }
+        }
+        if self.cfg.sqlite {
+            // oracle limitation (SQLite 3.40): a column-free conjunct in the ON clause of an inner
+            // join is treated like a WHERE term, which is wrong when a RIGHT/FULL join follows
+            // (`a join b on false full join c on ..` returns nothing): not generated for SQLite
+            for i in 1..from.len() {
+                let later_outer = from[i + 1..].iter().any(|f| matches!(f.join, Some((JoinKind::Right | JoinKind::Full, _))));
+                if let Some((JoinKind::Inner, Some(on))) = &mut from[i].join {
+                    if later_outer {
+                        *on = strip_const_conjuncts(on.clone());
+                    }
                 }
             }
         }
